@@ -217,10 +217,27 @@ def c14(rng):
     lock = T.make_delegate_key_lock(PUBS[root])
     out.append(('delegate:cert-by-other-root', [bs(T.make_delegate_key_witness(SEEDS[d1], T.make_delegate_key_cert(SEEDS[d2], PUBS[d1], now - 10, now + 10), sf)), bs(lock)], cache, cfg, False))
     out.append(('delegate:sig-by-other-delegate', [bs(T.make_delegate_key_witness(SEEDS[d2], cert, sf)), bs(lock)], cache, cfg, False))
-    packed = bytearray(cert.pack())
-    i = rng.randrange(len(packed))
-    packed[i] ^= 1 << rng.randrange(8)
-    out.append(('delegate:cert-bit-flipped@%d' % i, [bs(T.make_delegate_key_witness(SEEDS[d1], bytes(packed), sf)), bs(lock)], cache, cfg, False))
+    # every single-field corruption: one bit in each field of the certificate (model-checked scenarios), and once per worker
+    # process every single bit of the 105 bytes (direct runs)
+    for fname, lo, hi in (('delegate-key', 0, 32), ('begin', 32, 36), ('end', 36, 40), ('may-delegate', 40, 41), ('signature', 41, 105)):
+        packed = bytearray(cert.pack())
+        i = rng.randrange(lo, hi)
+        packed[i] ^= 1 << rng.randrange(8)
+        out.append(('delegate:cert-bit-flipped in %s' % fname, [bs(T.make_delegate_key_witness(SEEDS[d1], bytes(packed), sf)), bs(lock)], cache, cfg, False))
+    global _C14_SWEPT
+    if not _C14_SWEPT:
+        _C14_SWEPT = True
+        base = cert.pack()
+        honest = F.run_auth_scripts([bs(T.make_delegate_key_witness(SEEDS[d1], base, sf)), bs(lock)], dict(cache))
+        acc = []
+        for bit in range(len(base) * 8):
+            w_ = bytearray(base); w_[bit // 8] ^= 1 << (bit % 8)
+            if F.run_auth_scripts([bs(T.make_delegate_key_witness(SEEDS[d1], bytes(w_), sf)), bs(lock)], dict(cache)):
+                acc.append(bit)
+        out.append(('delegate: honest certificate accepted (bit sweep baseline)', None, None, None, honest is True))
+        out.append(('delegate: every single-bit corruption of the certificate is refused (%d bits)%s' % (len(base) * 8,
+                    (' -- ACCEPTED with bit(s) %s flipped; certificate %s lock %s cache %s' % (acc[:8], base.hex(), bs(lock).hex(), tsh.cache_str(cache, False))) if acc else ''),
+                    None, None, None, not acc))
     pf = perturb_fields(rng, sf)
     out.append(('delegate:covered-field-changed', [bs(T.make_delegate_key_witness(SEEDS[d1], cert, sf)), bs(lock)], dict(pf, timestamp=t), cfg, False))
     # chains
@@ -403,6 +420,17 @@ def c16_instr(rng):
                             sc0 = bytes([3, len(e0)]) + e0 + bytes([tsh.F.opcodes_inverse['OP_CHECK_TIMESTAMP'][0]])
                             out.append(('CHECK_TIMESTAMP c=%d t=%d (absolute) thr=%d' % (c0, t0, thr), sc0, {'timestamp': t0}, cfg,
                                         (t0 >= c0) and (thr <= 0 or t0 - now < thr)))
+                    # constraint encodings of 1..9 bytes (zero-padded on the left) and random 63-bit values
+                    for c0 in (0, 1, 127, 128, 255, 256, 65535, rng.getrandbits(63), rng.getrandbits(rng.randint(8, 62))):
+                        need = max(1, (c0.bit_length() + 8) // 8)        # room for the sign bit
+                        for nb_ in sorted(set([need, rng.randint(need, 9), 9])):
+                            e0 = c0.to_bytes(nb_, 'big')
+                            for t0 in (c0 - 1, c0, c0 + 1):
+                                if t0 < 0:
+                                    continue
+                                sc0 = bytes([3, len(e0)]) + e0 + bytes([tsh.F.opcodes_inverse['OP_CHECK_TIMESTAMP'][0]])
+                                out.append(('CHECK_TIMESTAMP c=%d (%dB) t=c%+d (absolute) thr=%d' % (c0, nb_, t0 - c0, thr), sc0, {'timestamp': t0}, cfg,
+                                            (t0 >= c0) and (thr <= 0 or t0 - now < thr)))
                 expe = (c - now) < ethr
                 for opn, ver in (('CHECK_EPOCH', False), ('CHECK_EPOCH_VERIFY', True)):
                     script = bytes([3, len(enc)]) + enc + bytes([tsh.F.opcodes_inverse['OP_' + opn][0]])
@@ -665,6 +693,7 @@ def c05(rng):
 # ---------------------------------------------------------------- C17: adapter signatures
 L_ORDER = 2**252 + 27742317777372353535851937790883648493
 _C17_SWEPT = False
+_C14_SWEPT = False
 _C05_BITS = set()
 
 
